@@ -70,7 +70,7 @@ func genC14(t *rapid.T) c14Case {
 		// A middle incarnation may push the snapshot file through a compaction
 		// (a flood of one kind; what the file said about the OTHER kind has to
 		// survive it and still bind the incarnation after it).
-		if p > 0 && p < np-1 && rapid.IntRange(0, 2).Draw(t, "flood") == 0 {
+		if p > 0 && p < np-1 && rapid.IntRange(0, 3).Draw(t, "flood") == 0 {
 			fl := c14Item{Kind: 7 + rapid.IntRange(0, 1).Draw(t, "floodkind")}
 			at := rapid.IntRange(0, len(items)).Draw(t, "floodat")
 			items = append(items[:at], append([]c14Item{fl}, items[at:]...)...)
@@ -173,7 +173,7 @@ func bodyC14(c c14Case, x *vkit.Ctx) {
 		if hasQ {
 			cutQ = qMax + min(1, ^uint64(0)-qMax)
 		}
-		floodsBefore := floods
+		floodsBefore, floodSeen := floods, 0
 		must := map[c14Key]bool{}
 		delivered := map[c14Key]int{}
 		bad := false
@@ -182,9 +182,15 @@ func bodyC14(c c14Case, x *vkit.Ctx) {
 			var k c14Key
 			switch ev := e.(type) {
 			case serf.UserEvent:
+				if ev.Name == "flood" {
+					floodSeen++
+				}
 				k = c14Key{false, uint64(ev.LTime), ev.Name, 0}
 				phaseMaxDelivered[0] = max(phaseMaxDelivered[0], k.lt)
 			case *serf.Query:
+				if ev.Name == "flood" {
+					floodSeen++
+				}
 				k = c14Key{true, uint64(ev.LTime), "", ev.VerifID()} // a query is identified by (time, id)
 				phaseMaxDelivered[1] = max(phaseMaxDelivered[1], k.lt)
 			default:
@@ -279,7 +285,14 @@ func bodyC14(c c14Case, x *vkit.Ctx) {
 					x.Label("flood-skipped-clock-near-top")
 					continue
 				}
+				// Pace on what the application has received: between the node's
+				// handlers and the application the pipeline has stages that drop
+				// instead of blocking when 1024 events are in flight.
 				sn := n.Serf.VerifSnapshotter()
+				seen0 := floodSeen
+				caughtUp := func(slack uint64, sent uint64) bool {
+					return waitUntil(n, waitCap, absorb, func() bool { return bad || uint64(floodSeen-seen0)+slack >= sent })
+				}
 				for i := uint64(0); i < count && !bad; i++ {
 					if it.Kind == 7 {
 						n.Delegate.NotifyMsg(encUserEvent(clk+i, "flood", nil))
@@ -287,14 +300,20 @@ func bodyC14(c c14Case, x *vkit.Ctx) {
 						n.Delegate.NotifyMsg(encQuery(clk+i, 77, "flood", 0))
 					}
 					if i%128 == 127 {
-						poll(n, absorb)
+						if !caughtUp(128, i+1) {
+							x.Inconclusive("flood: the application channel fell behind")
+							return
+						}
 						spins, deadline := 0, time.Now().Add(waitCap)
 						for sn != nil && sn.VerifBacklog() > 256 && time.Now().Before(deadline) {
 							spin(&spins)
 						}
 					}
 				}
-				poll(n, absorb)
+				if !bad && !caughtUp(0, count) {
+					x.Inconclusive("flood: not everything reached the application")
+					return
+				}
 				if bad {
 					return
 				}
